@@ -99,8 +99,21 @@ def poison_state(st):
 
         if isinstance(d, list):
             d.append("POISON")
+            for x in d:                     # ... and what it holds
+                if isinstance(x, dict):
+                    x["POISON"] = 1
+                elif isinstance(x, list):
+                    x.append("POISON")
         elif isinstance(d, dict):
             d["POISON"] = 1
+            for x in list(d.values()):
+                if isinstance(x, list):
+                    x.append("POISON")
+                    for y in x:
+                        if isinstance(y, dict):
+                            y["POISON"] = 1
+                elif isinstance(x, dict):
+                    x["POISON"] = 1
         elif isinstance(d, pd.DataFrame):
             d["POISON"] = 0
     except Exception:
